@@ -7,7 +7,7 @@ import CtyModel.Props.C14
 import CtyModel.Props.C18
 import CtyModel.Props.C05
 import CtyModel.Props.C04
--- import CtyModel.Props.C16   -- temporarily out: one lemma awaits the sync with the new Refine.lean
+import CtyModel.Props.C16
 import CtyModel.Props.C15
 import CtyModel.Props.C13
 import CtyModel.Props.C06
